@@ -80,7 +80,7 @@ def handleResp (case obs : List String) : String :=
       if trailersOnly then gs else (frames.find? (fun t => tokKind t = 't')).map (fun t => (t.drop 1).toString)
     let expectedCode := if early ≠ "-" then early else endc
     let expectMsgs : List Bytes := if early ≠ "-" then [] else if shape = "u" then msgs.take 1 else msgs
-    verdict ([("no-panic", !obs.any isBad),
+    verdict ([("no-panic", !obs.any isBad), ("no-lost-wakeup", noLostWakeup obs),
               ("http-200", fieldOf "S" obs == some "200"),
               ("content-type-application-grpc", fieldOf "ct" obs == some (hexBare (Ascii.ofString "application/grpc"))),
               ("exactly-one-grpc-status",
@@ -98,7 +98,7 @@ def handleReq (case obs : List String) : String :=
     let o := (unhexBare origin).getD []
     let p := (unhexBare path).getD []
     let expectPath := if o = [] ∨ o = Ascii.ofString "/" then p else o ++ p
-    verdict ([("no-panic", !obs.any isBad),
+    verdict ([("no-panic", !obs.any isBad), ("no-lost-wakeup", noLostWakeup obs),
               ("method-POST", fieldOf "M" obs == some "POST"),
               ("http2", fieldOf "V" obs == some "HTTP/2.0"),
               ("path", (fieldOf "P" obs).bind unhexBare == some expectPath),
@@ -118,8 +118,9 @@ def handle (case obs : List String) : String × String :=
   | "req" :: _ => (String.intercalate " " obs, handleReq case obs)
   | "prod" :: _ => DriverC03Prod.handle case obs
   | _ =>
-  match model case, parseEncCase case with
-  | some m, some c =>
+  match parseEncCase case with
+  | some c =>
+    let m := encColumn c obs
     let bytes := (obsData obs).flatten
     let (frs, left) := Spec.Framing.split bytes
     let eff := c.cfg.comp
@@ -130,12 +131,14 @@ def handle (case obs : List String) : String × String :=
     let payloadsAreMessages := (frs.filterMap (payloadMsg c.tab)).all (fun p => (itemsOf c.evs).contains p)
     let nT := (obs.filter (fun t => tokKind t = 't')).length
     let trailersOk := if c.cfg.server
-      then nT == 1 && (match afterFirstT obs with | some r => r.all (fun t => t = "n") | none => false)
+      then nT == 1 && (match afterFirstT (pollToks obs) with | some r => r.all (fun t => t = "n") | none => false)
       else nT == 0
-    (m, verdict [("no-panic", !obs.any isBad),
+    (m, verdict [("no-panic", !obs.any isBad), ("no-lost-wakeup", noLostWakeup obs),
                  ("body-is-whole-frames", left.isEmpty),
                  ("flag-matches-compression", flagsOk),
                  ("payloads-are-serialized-messages", payloadsAreMessages),
-                 ("one-trailers-block-nothing-after", trailersOk)])
-  | _, _ => bad
+                 ("one-trailers-block-nothing-after", trailersOk),
+                 ("is-end-stream-only-after-the-trailers-or-last-data", endStreamOk c.cfg.server obs),
+                 ("size-hint-is-sound", sizeHintOk obs)])
+  | none => bad
 end DriverC03
